@@ -26,10 +26,12 @@ def build_phased(loci, n, rng):
     return m
 
 
-def observe(cid, cls, obj, loci, n, small):
+def observe(cid, cls, obj, loci, n, small, P=2):
+    """loci: phased compositions (diploid) or, for P != 2, dosage-class compositions (P+1 counts per locus)"""
     L = len(loci)
-    c = {"id": cid, "cls": cls, "n": n, "loci": [list(x) for x in loci], "small": bool(small)}
-    two_n = 2 * n
+    c = {"id": cid, "cls": cls, "n": n, "small": bool(small), "ploidy": P}
+    c["loci" if P == 2 else "dose"] = [list(x) for x in loci]
+    two_n = P * n
     ac = np.asarray(obj.acount())
     c["acount"] = [int(x) for x in ac]
     f = np.asarray(obj.afreq(), dtype=float)
@@ -45,17 +47,17 @@ def observe(cid, cls, obj, loci, n, small):
     mr, mok = lat(obj.maf(), two_n)
     c["maf"] = [int(x) if mok else -1 for x in mr]
     meh = float(obj.meh())
-    hv = meh * (two_n ** 2) * L / 2.0
+    hv = meh * (two_n ** 2) * L / float(P)
     c["meh"] = int(round(hv)); c["mehlat"] = bool(abs(hv - round(hv)) <= 1e-6 * max(1.0, abs(hv)))
     gt = np.asarray(obj.gtcount())
     c["gtrows"] = int(gt.shape[0]) if gt.ndim == 2 else -1
-    if gt.ndim == 2 and gt.shape[0] == 3:
+    if gt.ndim == 2 and gt.shape[0] == P + 1:
         c["gt"] = gt.astype(int).tolist()
         gr, gok = lat(obj.gtfreq(), n)
-        c["gtf"] = gr.astype(int).tolist() if np.asarray(gr).shape == gt.shape else [[-1] * L] * 3
+        c["gtf"] = gr.astype(int).tolist() if np.asarray(gr).shape == gt.shape else [[-1] * L] * (P + 1)
         c["gtflat"] = bool(gok)
     else:
-        c["gt"] = [[-1] * L] * 3; c["gtf"] = [[-1] * L] * 3; c["gtflat"] = False
+        c["gt"] = [[-1] * L] * (P + 1); c["gtf"] = [[-1] * L] * (P + 1); c["gtflat"] = False
     # requested dtypes are honoured
     dt_ok = True
     for meth, dt in (("acount", "int32"), ("afreq", "float32"), ("maf", "float32"), ("gtcount", "int16"),
@@ -68,18 +70,19 @@ def observe(cid, cls, obj, loci, n, small):
             dt_ok = False
     c["dtypeok"] = dt_ok
     if small:
-        if cls == "phased":
-            dos = (obj.mat[0].astype(int) + obj.mat[1].astype(int))
+        if cls.startswith("phased"):
+            dos = np.asarray(obj.mat).astype(int).sum(0)
         else:
             dos = obj.mat.astype(int)
         c["dos"] = dos.tolist()
         c["tac"] = np.asarray(obj.tacount()).astype(int).tolist()
-        t2, _ = lat(obj.tafreq(), 2)
-        c["taf2"] = t2.astype(int).tolist()
+        t2, tok = lat(obj.tafreq(), P)
+        c["taf2"] = t2.astype(int).tolist() if tok else [[-1] * L] * n
         c["c012"] = np.asarray(obj.mat_asformat("{0,1,2}")).astype(int).tolist()
-        c["cm101"] = np.asarray(obj.mat_asformat("{-1,0,1}")).astype(int).tolist()
-        cm, cok = lat(obj.mat_asformat("{-1,m,1}"), n)
-        c["cmm"] = cm.astype(int).tolist() if cok else [[10 ** 6] * L] * n
+        if P == 2:
+            c["cm101"] = np.asarray(obj.mat_asformat("{-1,0,1}")).astype(int).tolist()
+            cm, cok = lat(obj.mat_asformat("{-1,m,1}"), n)
+            c["cmm"] = cm.astype(int).tolist() if cok else [[10 ** 6] * L] * n
     return c
 
 
@@ -91,13 +94,16 @@ def run(ctx):
                 "49/98/103/107/161/300 and random matrices, are built phased, unphased and via DenseUnphasedGenotyping; "
                 "all statistics are recorded in exact integer form and validated by TLC (GenoStats_Trace); non-trivial "
                 "locus set: contains polymorphic and fixed loci; distinct by (class,n,loci)")
-    ctx.assume("diploid biallelic calls (phases in {0,1}); frequencies logged as round(f*2n) with lattice residual <= 1e-6",
+    ctx.assume("biallelic calls (phases in {0,1}); the exhaustive compositions are diploid, ploidies 1, 3, 4, 6 are covered by random matrices "
+               "and an exhaustive TLC model over dosage-class compositions; frequencies logged as round(f*ploidy*n) with lattice residual <= 1e-6",
+               "mean expected heterozygosity is taken as (ploidy / L) * sum p(1-p), the form the library documents",
                "exactness at the 0/1 boundary is checked with the default dtype (float64)")
     cfg = "GenoStats_MCT.cfg" if thorough else "GenoStats_MC.cfg"
-    r = tlc.run("GenoStats", cfg, timeout=3000)
-    tlc.must_pass(r, cfg); ctx.add_tlc(r, cfg)
-    if r.violated:
-        ctx.violation("spec:GenoStats:" + r.violated, "TLC: %s violated" % r.violated, r.error)
+    for mod, cf in (("GenoStats", cfg), ("GenoStatsPoly", "GenoStatsPoly.cfg")):
+        r = tlc.run(mod, cf, timeout=3000)
+        tlc.must_pass(r, cf); ctx.add_tlc(r, cf)
+        if r.violated:
+            ctx.violation("spec:%s:%s" % (mod, r.violated), "TLC: %s violated" % r.violated, r.error)
 
     from pybrops.popgen.gmat.DenseGenotypeMatrix import DenseGenotypeMatrix
     from pybrops.popgen.gmat.DensePhasedGenotypeMatrix import DensePhasedGenotypeMatrix
@@ -179,23 +185,69 @@ def run(ctx):
                     allc.append(c2)
                 except Exception as e:
                     ctx.violation("%s:in-place-edit:exception" % cls, "%s: %s" % (type(e).__name__, e), {"n": n})
+    # ---- other ploidies (dosages 0..P; phased matrices with P phase planes), and copies of the matrices: a shallow or
+    # deep copy must describe the same allele calls as its original (the summaries depend on the ploidy the object carries)
+    import copy as _copy
+    for t in range(120 if thorough else 48):
+        P = [4, 1, 3, 4, 6, 2][t % 6]
+        n = rng.choice([1, 2, 3, 5, 8, 13, 49, 103]) if t % 4 else rng.randrange(1, 10)
+        L = rng.randrange(1, 7)
+        small = n < 10
+        pm = np.array([[[rng.randrange(2) for _ in range(L)] for _ in range(n)] for _ in range(P)], dtype="int8")
+        for l in range(L):
+            r = rng.random()
+            if r < 0.15:
+                pm[:, :, l] = 1            # fixed for the allele
+            elif r < 0.3:
+                pm[:, :, l] = 0            # allele absent
+            elif r < 0.4:
+                pm[: P // 2, :, l] = 1; pm[P // 2:, :, l] = 0     # every taxon carries half of its copies (P even)
+        dosem = pm.astype(int).sum(0)
+        dose = [[int((dosem[:, l] == k).sum()) for k in range(P + 1)] for l in range(L)]
+        comp = dose if P != 2 else None
+        try:
+            pg = DensePhasedGenotypeMatrix(pm.copy())
+            ug = DenseGenotypeMatrix(dosem.astype("int8"), ploidy=P)
+            objs = [("phased", pg), ("unphased", ug), ("genotyped", DenseUnphasedGenotyping().genotype(pg)),
+                    ("phased", _copy.deepcopy(pg)), ("unphased", _copy.deepcopy(ug)), ("phased", _copy.copy(pg)),
+                    ("unphased", _copy.copy(ug)), ("unphased", ug.deepcopy()), ("phased", pg.deepcopy())]
+        except Exception as e:
+            ctx.violation("construct:exception", "ploidy %d: %s: %s" % (P, type(e).__name__, e), {"n": n, "ploidy": P})
+            continue
+        if P == 2:
+            comp = [(int(((pm[0, :, l] == 0) & (pm[1, :, l] == 0)).sum()), int(((pm[0, :, l] == 0) & (pm[1, :, l] == 1)).sum()),
+                     int(((pm[0, :, l] == 1) & (pm[1, :, l] == 0)).sum()), int(((pm[0, :, l] == 1) & (pm[1, :, l] == 1)).sum())) for l in range(L)]
+        for k, (cls, obj) in enumerate(objs):
+            cid += 1
+            try:
+                c = observe(cid, cls, obj, comp, n, small, P)
+                c["copy"] = ["", "", "", ":deepcopy", ":deepcopy", ":copy", ":copy", ":deepcopy", ":deepcopy"][k]
+                allc.append(c)
+            except Exception as e:
+                ctx.violation("%s:exception" % cls, "ploidy %d: %s: %s" % (P, type(e).__name__, e), {"n": n, "ploidy": P})
     verd = cases.validate(ctx, "GenoStats_Trace", "GenoStats_Trace.cfg", allc, "GenoStats_Trace", chunk=6, procs=14)
     ctx.traces += len(allc)
     site = {"phased": "DensePhasedGenotypeMatrix", "unphased": "DenseGenotypeMatrix",
             "genotyped": "DenseUnphasedGenotyping->DenseGenotypeMatrix"}
     for c in allc:
         v = verd[c["id"]]
-        ks = {tuple(x) for x in c["loci"]}
-        nt = any(x[1] + x[2] + 2 * x[3] in (0, 2 * c["n"]) for x in ks) and any(0 < x[1] + x[2] + 2 * x[3] < 2 * c["n"] for x in ks)
-        ctx.count(1, (c["cls"], c["n"], tuple(sorted(ks))) if nt else None)
+        if "loci" in c:
+            ks = {tuple(x) for x in c["loci"]}
+            acs = [x[1] + x[2] + 2 * x[3] for x in ks]
+        else:
+            ks = {tuple(x) for x in c["dose"]}
+            acs = [sum(k * v for k, v in enumerate(x)) for x in ks]
+        tot = c["ploidy"] * c["n"]
+        nt = any(a in (0, tot) for a in acs) and any(0 < a < tot for a in acs)
+        ctx.count(1, (c["cls"], c["n"], c["ploidy"], c.get("copy", ""), tuple(sorted(ks))) if nt else None)
         if v != "ok":
             extra = ":n=%d" % c["n"] if v.startswith("afreq-not-exactly") or v in ("afixed", "apoly") else ""
-            ctx.violation("%s:%s%s" % (site[c["cls"]], v, ":after-in-place-edit" if c.get("edited") else ""),
-                          "TLC verdict %s (n=%d, %d loci%s)" % (v, c["n"], len(c["loci"]), ", statistics queried, then taxa removed/appended in place" if c.get("edited") else ""),
+            ctx.violation("%s:%s%s%s" % (site[c["cls"]], v, ":after-in-place-edit" if c.get("edited") else "", c.get("copy", "")),
+                          "TLC verdict %s (ploidy=%d, n=%d, %d loci%s)" % (v, c["ploidy"], c["n"], len(c.get("loci", c.get("dose"))), ", statistics queried, then taxa removed/appended in place" if c.get("edited") else ""),
                           {k: (c[k][:12] if isinstance(c[k], list) else c[k]) for k in c})
         if not c["dtypeok"]:
             ctx.violation("%s:requested-dtype" % site[c["cls"]], "a requested output dtype was not honoured", {"n": c["n"]})
     s = allc[-1]
-    ctx.sample({k: s[k] for k in ("cls", "n", "loci", "acount", "af", "poly", "fixed", "maf", "meh", "gt")})
+    ctx.sample({k: s[k] for k in ("cls", "n", "ploidy", "loci", "dose", "acount", "af", "poly", "fixed", "maf", "meh", "gt") if k in s})
     ctx.sample({"verdict": verd[s["id"]]})
     ctx.exhaustive = True
